@@ -204,6 +204,9 @@ func basePath(sc *Scenario) string {
 func indexDoc(items []fakereg.Item, size int) []byte {
 	ms := make([]ocispec.Descriptor, len(items))
 	for i, it := range items {
+		if it.Name == "" { // an empty descriptor (a "bad entry" of a referrers index)
+			continue
+		}
 		ms[i] = ocispec.Descriptor{MediaType: ocispec.MediaTypeImageManifest, Digest: digest.Digest(it.Name), Size: 2, ArtifactType: it.ArtifactType}
 	}
 	idx := ocispec.Index{MediaType: ocispec.MediaTypeImageIndex, Manifests: ms}
@@ -1275,16 +1278,7 @@ func tagSchemaCase(ts *TagSchema) {
 	id := run.NewID()
 	reg := fakereg.New(host)
 	reg.Decide = func(*fakereg.Exchange) fakereg.Decision { return fakereg.Decision{NoDigest: ts.NoDigest} }
-	ms := make([]ocispec.Descriptor, len(ts.Items))
-	for i, it := range ts.Items {
-		ms[i] = ocispec.Descriptor{MediaType: ocispec.MediaTypeImageManifest, Digest: digest.Digest(it.Name), Size: 2, ArtifactType: it.ArtifactType}
-	}
-	idx := ocispec.Index{MediaType: ocispec.MediaTypeImageIndex, Manifests: ms}
-	idx.SchemaVersion = 2
-	doc, _ := json.Marshal(idx)
-	if ts.Size > len(doc) {
-		doc = append(append(doc[:len(doc)-1:len(doc)-1], bytes.Repeat([]byte{' '}, ts.Size-len(doc))...), '}')
-	}
+	doc := indexDoc(ts.Items, ts.Size)
 	if !ts.Absent {
 		reg.Manifests["repo@"+subject.Algorithm().String()+"-"+subject.Encoded()] = fakereg.Manifest{MediaType: ocispec.MediaTypeImageIndex, Content: doc}
 	}
@@ -1326,9 +1320,15 @@ func tagSchemaCase(ts *TagSchema) {
 	run.Nontrivial(fmt.Sprintf("X%v", *ts))
 	// oracle
 	fail := func(sig, msg string) { run.OracleFail(id, sig, "tag schema: "+msg, ts) }
+	// ground truth: every non-empty entry of the index once (first occurrence), of the requested type
 	var expected []fakereg.Item
 	if !ts.Absent {
+		seen := map[string]bool{}
 		for _, it := range ts.Items {
+			if it.Name == "" || seen[it.Name] {
+				continue
+			}
+			seen[it.Name] = true
 			if ts.AT == "" || it.ArtifactType == ts.AT {
 				expected = append(expected, it)
 			}
@@ -1366,8 +1366,29 @@ func tagSchemaCase(ts *TagSchema) {
 	}
 }
 
+// dirtyIndex repeats entries (also with another artifact type) and inserts empty descriptors.
+func dirtyIndex(r *common.Rand, items []fakereg.Item) []fakereg.Item {
+	out := append([]fakereg.Item(nil), items...)
+	for k := 1 + r.Intn(3); k > 0; k-- {
+		var it fakereg.Item
+		if len(out) > 0 && r.Chance(2, 3) {
+			it = common.Pick(r, out)
+			if r.Chance(1, 3) {
+				it.ArtifactType = common.Pick(r, artifactTypes)
+			}
+		}
+		at := r.Intn(len(out) + 1)
+		out = append(out[:at:at], append([]fakereg.Item{it}, out[at:]...)...)
+	}
+	return out
+}
+
 func genTagSchema(r *common.Rand) {
 	ts := &TagSchema{Items: genItems(r, "R", r.Intn(8)), CbFail: -1, NoDigest: r.Bool(), Absent: r.Chance(1, 10)}
+	if r.Chance(1, 3) {
+		ts.Items = dirtyIndex(r, ts.Items)
+		run.Count("tagschema_dirty_index")
+	}
 	if r.Chance(2, 3) {
 		ts.AT = common.Pick(r, artifactTypes[:3])
 	}
